@@ -22,11 +22,28 @@ package verifc34_test
 //	S6 Connect() calls of a pass follow the reference order dedup+interleave of
 //	   the resolver list, at most one per address; an address may be skipped
 //	   only while its reused subchannel is CONNECTING or in TRANSIENT_FAILURE
+//	S5b while a subchannel is READY (latest state READY, not shut down) no other
+//	   SubConn is created or connected ("all other subchannels are shut down")
+//	S7 a connection-delay timer whose function was already launched when
+//	   pick_first cancelled it has no observable effect (see timerRig)
+//
+// The connection-delay timer: pick_first's seam internal.TimeAfterFunc is
+// wrapped (timerRig) around the real time.AfterFunc of the bubble, so ordinary
+// firings are exactly the fake clock's. In addition the plan can mark a call
+// "the pending timer has fired, but its function only gets the balancer mutex
+// after this call" (op.Fire == fireHeld): the harness advances the clock to
+// the timer's deadline with the function parked, makes the call (a Stop() by
+// pick_first during the call cannot stop a launched function - exactly
+// time.Timer semantics) and then runs the parked function. The function's
+// first action is b.mu.Lock(), so this is observationally identical to the
+// timer goroutine being blocked on (or not yet scheduled to take) the mutex
+// while another goroutine executes the call.
 
 import (
 	"errors"
 	"fmt"
 	"os"
+	"sync"
 	"testing"
 	"testing/synctest"
 	"time"
@@ -61,8 +78,18 @@ const (
 	opPick
 )
 
+// op.Fire: what happens to the pending connection-delay timer (if any) just
+// before the op's balancer call.
+const (
+	fireNone   = iota
+	fireHeld   // clock advanced to the deadline; the launched function runs only after the call
+	fireMiss   // clock advanced to 1ns before the deadline (the call may still stop the timer)
+	fireBefore // clock advanced to the deadline and the function ran, then the call
+)
+
 type op struct {
 	K       int   `json:"k"`
+	Fire    int   `json:"fire,omitempty"`
 	A       int   `json:"a"`
 	B       int   `json:"b"`
 	Addrs   []int `json:"addrs,omitempty"`  // pool indices (update)
@@ -75,6 +102,99 @@ type op struct {
 type plan struct {
 	QueuedAfterShutdown int  `json:"queued_after_shutdown"`
 	Ops                 []op `json:"ops"`
+	FireAtClose         bool `json:"fire_at_close,omitempty"` // pending timer is launched while Close() runs
+}
+
+// timerRig wraps pick_first's timer seam. A timer is a real time.AfterFunc of
+// the bubble; when the harness set hold before the fake clock reached the
+// deadline, the launched function is parked in held instead of being run, and
+// the harness runs it after the next balancer call. The stop function handed
+// to pick_first is time.Timer.Stop (it cannot stop a launched function); it
+// only additionally records that it was called.
+type timerRig struct {
+	mu      sync.Mutex
+	cur     *rigTimer   // most recently created timer
+	held    []*rigTimer // launched, function parked
+	created int
+}
+
+type rigTimer struct {
+	f                 func()
+	deadline          time.Time
+	t                 *time.Timer
+	stopped           bool // pick_first called the stop function
+	fired             bool // the clock reached the deadline before Stop()
+	hold              bool
+	stoppedAfterFired bool // stop function called while the function was launched but had not run
+}
+
+func (r *timerRig) afterFunc(d time.Duration, f func()) func() {
+	tm := &rigTimer{f: f, deadline: time.Now().Add(d)}
+	r.mu.Lock()
+	r.cur = tm
+	r.created++
+	r.mu.Unlock()
+	tm.t = time.AfterFunc(d, func() {
+		r.mu.Lock()
+		tm.fired = true
+		hold := tm.hold
+		if hold {
+			r.held = append(r.held, tm)
+		}
+		r.mu.Unlock()
+		if !hold {
+			f()
+		}
+	})
+	return func() {
+		r.mu.Lock()
+		if tm.fired && tm.hold && !tm.stopped {
+			tm.stoppedAfterFired = true
+		}
+		tm.stopped = true
+		r.mu.Unlock()
+		tm.t.Stop()
+	}
+}
+
+// pending returns the timer that is armed (neither stopped nor fired), if any.
+// pick_first has at most one: it stops the previous one before arming the next.
+func (r *timerRig) pending() *rigTimer {
+	r.mu.Lock()
+	defer r.mu.Unlock()
+	if r.cur != nil && !r.cur.stopped && !r.cur.fired {
+		return r.cur
+	}
+	return nil
+}
+
+// hold advances the fake clock to tm's deadline with its function parked.
+func (r *timerRig) hold(tm *rigTimer) {
+	r.mu.Lock()
+	tm.hold = true
+	r.mu.Unlock()
+	time.Sleep(time.Until(tm.deadline))
+	synctest.Wait()
+}
+
+func (r *timerRig) takeHeld() []*rigTimer {
+	r.mu.Lock()
+	defer r.mu.Unlock()
+	h := r.held
+	r.held = nil
+	return h
+}
+
+func (r *timerRig) cancelledWhileLaunched(tm *rigTimer) bool {
+	r.mu.Lock()
+	defer r.mu.Unlock()
+	return tm.stoppedAfterFired
+}
+
+func (r *timerRig) numCreated() int {
+	r.mu.Lock()
+	defer r.mu.Unlock()
+	return r.created
 }
 
 func genPlan(rt *rapid.T) plan {
@@ -146,8 +266,12 @@ func genPlan(rt *rapid.T) plan {
 		default:
 			o.K = opPick
 		}
+		if o.K != opAdvance {
+			o.Fire = fakecc.Weighted(rt, "fire", 70, 20, 5, 5)
+		}
 		p.Ops = append(p.Ops, o)
 	}
+	p.FireAtClose = fakecc.Uniform(rt, "fireAtClose", 8) == 0
 	return p
 }
 
@@ -289,6 +413,9 @@ func (m *model) walk(e fakecc.Entry, inTimerOp bool) {
 			return
 		}
 		a := e.SC.Addrs[0].Addr
+		if r := m.ready; r != nil && !m.shut[r] && m.state[r] == connectivity.Ready {
+			m.bad("%v: SubConn for %q created while %v is READY and not shut down (all other subchannels must stay shut down)", e, a, r)
+		}
 		if _, ok := m.idx[a]; !ok {
 			m.bad("%v: SubConn created for %q which is not in the current address list %v", e, a, m.L)
 		}
@@ -308,6 +435,9 @@ func (m *model) walk(e fakecc.Entry, inTimerOp bool) {
 			m.ready = nil
 		}
 	case fakecc.KConnect:
+		if r := m.ready; r != nil && r != e.SC && !m.shut[r] && m.state[r] == connectivity.Ready && !m.shut[e.SC] {
+			m.bad("%v: Connect() on %v while %v is READY and not shut down (all other subchannels must stay shut down)", e, e.SC, r)
+		}
 		if m.shut[e.SC] || !m.passActive {
 			return
 		}
@@ -441,20 +571,63 @@ func runInBubble(p plan) (res vk.Result) {
 	cc := fakecc.New("c34")
 	cc.QueuedAfterShutdown = p.QueuedAfterShutdown
 	pf := balancer.Get(pickfirst.Name).Build(cc, balancer.BuildOptions{})
-	origFloat, origShuffle := pfinternal.RandFloat64, pfinternal.RandShuffle
+	origFloat, origShuffle, origTimer := pfinternal.RandFloat64, pfinternal.RandShuffle, pfinternal.TimeAfterFunc
+	rig := &timerRig{}
+	pfinternal.TimeAfterFunc = rig.afterFunc
 	defer func() {
+		if tm := rig.pending(); tm != nil && p.FireAtClose {
+			rig.hold(tm)
+		}
 		pf.Close()
+		for _, tm := range rig.takeHeld() {
+			tm.f() // launched before Close() got the mutex; only "does not panic / leak" is asserted
+		}
 		synctest.Wait()
-		pfinternal.RandFloat64, pfinternal.RandShuffle = origFloat, origShuffle
+		pfinternal.RandFloat64, pfinternal.RandShuffle, pfinternal.TimeAfterFunc = origFloat, origShuffle, origTimer
 	}()
 	m := &model{idx: map[string]int{}, state: map[*fakecc.SubConn]connectivity.State{}, shut: map[*fakecc.SubConn]bool{},
 		liveByAddr: map[string]*fakecc.SubConn{}, bornSticky: map[*fakecc.SubConn]bool{}}
 	cursor := 0
 	maxAddrs, maxFams, shuffles, healthCases, keptReady, emptyUpdates, picksOK := 0, 0, 0, 0, 0, 0, 0
+	heldCalls, heldCancelled, heldEffective, nearMiss, firedBefore := 0, 0, 0, 0, 0
+	cancelKinds := map[string]bool{}
 
 	for i, o := range p.Ops {
 		desc := fmt.Sprintf("op %d %+v", i, o)
 		m.othersMustBe, m.deliveringTo = nil, nil
+		// the pending connection-delay timer relative to this op's call
+		if tm := rig.pending(); tm != nil && o.K != opAdvance {
+			switch o.Fire {
+			case fireHeld:
+				rig.hold(tm)
+				heldCalls++
+			case fireMiss:
+				time.Sleep(time.Until(tm.deadline) - time.Nanosecond)
+				synctest.Wait()
+				nearMiss++
+			case fireBefore:
+				time.Sleep(time.Until(tm.deadline))
+				synctest.Wait()
+				firedBefore++
+				// the timer's effects precede the op (and the op's model changes)
+				log := cc.Log()
+				if trace {
+					fmt.Printf("TRACE op %d: timer runs just before the call\n", i)
+				}
+				for _, e := range log[cursor:] {
+					if trace {
+						fmt.Printf("TRACE     %v\n", e)
+					}
+					m.walk(e, true)
+				}
+				cursor = len(log)
+				if m.violation != "" {
+					return vk.Bad("%s (timer fired just before the call): %s", desc, m.violation)
+				}
+			}
+		}
+		cancelKind := "other"
+	opSwitch:
 		switch o.K {
 		case opUpdate:
 			var st resolver.State
@@ -538,6 +711,7 @@ func runInBubble(p plan) (res vk.Result) {
 				shuffleCalls++
 				fisherYates(n, swap)
 			}
+			cancelKind = "resolver_update"
 			err := pf.UpdateClientConnState(ccs)
 			if (len(ref) == 0) != errors.Is(err, balancer.ErrBadResolverState) {
 				return vk.Bad("%s: UpdateClientConnState returned %v for %d addresses", desc, err, len(ref))
@@ -595,7 +769,7 @@ func runInBubble(p plan) (res vk.Result) {
 		case opDeliver:
 			d := connectivityDeliverable(cc)
 			if len(d) == 0 {
-				continue
+				break opSwitch
 			}
 			// mostly drive live subchannels; SHUTDOWN confirmations of shut-down
 			// ones are delivered now and then.
@@ -618,6 +792,7 @@ func runInBubble(p plan) (res vk.Result) {
 			} else if len(en) > 1 && o.B == 2 {
 				st = en[len(en)-1] // SHUTDOWN instead of a queued ordinary update
 			}
+			cancelKind = "deliver_" + st.String()
 			sc.Deliver(st, fmt.Errorf("dial %s: refused", sc.Addrs[0].Addr))
 		case opAdvance:
 			time.Sleep([]time.Duration{250 * time.Millisecond, 100 * time.Millisecond, time.Second}[o.A])
@@ -629,7 +804,7 @@ func runInBubble(p plan) (res vk.Result) {
 				}
 			}
 			if len(hs) == 0 {
-				continue
+				break opSwitch
 			}
 			hs[o.A%len(hs)].DeliverHealth([]connectivity.State{connectivity.Ready, connectivity.TransientFailure, connectivity.Connecting}[o.B], errors.New("unhealthy"))
 		case opResolverError:
@@ -642,7 +817,7 @@ func runInBubble(p plan) (res vk.Result) {
 		case opPick:
 			st, ok := cc.LastState()
 			if !ok {
-				continue
+				break opSwitch
 			}
 			if m.reported == connectivity.Idle {
 				m.startPass() // the idle picker triggers ExitIdle
@@ -660,16 +835,41 @@ func runInBubble(p plan) (res vk.Result) {
 			}
 		}
 		synctest.Wait()
+		// The call is over: the parked timer function (launched before the
+		// call took the balancer mutex) gets the mutex now.
+		heldFrom := cc.Seq()
+		s7 := ""
+		for _, tm := range rig.takeHeld() {
+			seq0, timers0 := cc.Seq(), rig.numCreated()
+			cancelled := rig.cancelledWhileLaunched(tm) // before f: f itself calls the (once) stop function when it re-arms
+			tm.f()
+			synctest.Wait()
+			if cancelled {
+				heldCancelled++
+				cancelKinds[cancelKind] = true
+				// S7: pick_first cancelled this timer during the call. Had Stop()
+				// won the race the function would never have run; a launched
+				// function must therefore be a no-op.
+				if seq1, timers1 := cc.Seq(), rig.numCreated(); (seq1 != seq0 || timers1 != timers0) && s7 == "" && !noS7 {
+					s7 = fmt.Sprintf("the connection-delay timer was launched before and cancelled during this call, but its function still acted when it got the mutex: %v (new timers: %d)", cc.Log()[seq0:seq1], timers1-timers0)
+				}
+			} else if cc.Seq() != seq0 {
+				heldEffective++
+			}
+		}
 		res.Steps++
 		log := cc.Log()
 		if trace {
 			fmt.Printf("TRACE %s (sticky=%v pass=%v lastIdx=%d L=%v)\n", desc, m.sticky, m.passActive, m.lastIdx, m.L)
-			for _, e := range log[cursor:] {
+			for j, e := range log[cursor:] {
+				if cursor+j == heldFrom && heldFrom < len(log) {
+					fmt.Printf("TRACE   -- parked timer function runs --\n")
+				}
 				fmt.Printf("TRACE     %v\n", e)
 			}
 		}
-		for _, e := range log[cursor:] {
-			m.walk(e, o.K == opAdvance)
+		for j, e := range log[cursor:] {
+			m.walk(e, o.K == opAdvance || cursor+j >= heldFrom)
 		}
 		cursor = len(log)
 		if m.violation != "" {
@@ -685,8 +885,11 @@ func runInBubble(p plan) (res vk.Result) {
 		if m.passActive && m.allFailed() {
 			return vk.Bad("%s: every address of %v has failed in this pass but TRANSIENT_FAILURE was not reported (last reported %v)", desc, m.L, m.reported)
 		}
+		if s7 != "" { // reported only when no statement-level invariant fired in this step
+			return vk.Bad("%s: %s", desc, s7)
+		}
 	}
-	res.NonTrivial = maxAddrs >= 3 && maxFams >= 2 && m.failedPasses >= 1
+	res.NonTrivial = maxAddrs >= 3 && maxFams >= 2 && m.failedPasses >= 1 || heldCancelled > 0
 	cl := func(c bool, s string) {
 		if c {
 			res.Classes = append(res.Classes, s)
@@ -699,6 +902,14 @@ func runInBubble(p plan) (res vk.Result) {
 	cl(m.skipsJustifed > 0, "reused_subconn_skipped")
 	cl(m.outOfTurnTF > 0, "out_of_turn_tf")
 	cl(m.timerConnects > 0, "happy_eyeballs_timer_connect")
+	cl(heldCalls > 0, "timer_fired_during_call")
+	cl(heldCancelled > 0, "timer_fired_during_cancelling_call")
+	for _, k := range []string{"deliver_READY", "deliver_TRANSIENT_FAILURE", "deliver_IDLE", "resolver_update", "other"} {
+		cl(cancelKinds[k], "timer_fired_during_cancelling_call:"+k)
+	}
+	cl(heldEffective > 0, "timer_fired_during_call_then_acted")
+	cl(nearMiss > 0, "call_1ns_before_timer")
+	cl(firedBefore > 0, "timer_ran_just_before_call")
 	cl(shuffles > 0, "shuffle_with_known_permutation")
 	cl(healthCases > 0, "health_listener")
 	cl(keptReady > 0, "update_kept_ready_subconn")
@@ -727,6 +938,10 @@ func connectivityDeliverable(cc *fakecc.CC) []*fakecc.SubConn {
 }
 
 var trace = os.Getenv("VERIF_C34_TRACE") != ""
+
+// noS7 switches invariant S7 off (sensitivity experiments only: shows what the
+// statement-level invariants catch on their own).
+var noS7 = os.Getenv("VERIF_C34_NO_S7") != ""
 
 func pfParser() balancer.ConfigParser { return balancer.Get(pickfirst.Name).(balancer.ConfigParser) }
 
